@@ -1,0 +1,71 @@
+//go:build verif
+// +build verif
+
+// Package verifhook provides named instrumentation points used by the
+// out-of-tree runtime verification harness. This is the active variant,
+// compiled only with the "verif" build tag.
+package verifhook
+
+import "sync"
+
+// Enabled reports whether the hooks are compiled in.
+const Enabled = true
+
+var (
+	mu     sync.RWMutex
+	points = map[string]func(args ...interface{}){}
+	sizes  = map[string]func(v uint64) uint64{}
+)
+
+// Point marks a named place in the code. The registered handler (if any) is
+// called on the goroutine that reached the point, outside of verifhook's own
+// lock, so it may block (gate), sleep, record, or kill the process.
+func Point(name string, args ...interface{}) {
+	mu.RLock()
+	h := points[name]
+	mu.RUnlock()
+	if h != nil {
+		h(args...)
+	}
+}
+
+// Size lets the harness override a size computed by the code.
+func Size(name string, v uint64) uint64 {
+	mu.RLock()
+	h := sizes[name]
+	mu.RUnlock()
+	if h != nil {
+		return h(v)
+	}
+	return v
+}
+
+// SetPoint installs (or, with nil, removes) the handler of a point.
+func SetPoint(name string, h func(args ...interface{})) {
+	mu.Lock()
+	if h == nil {
+		delete(points, name)
+	} else {
+		points[name] = h
+	}
+	mu.Unlock()
+}
+
+// SetSize installs (or, with nil, removes) a size override.
+func SetSize(name string, h func(v uint64) uint64) {
+	mu.Lock()
+	if h == nil {
+		delete(sizes, name)
+	} else {
+		sizes[name] = h
+	}
+	mu.Unlock()
+}
+
+// Reset removes every handler.
+func Reset() {
+	mu.Lock()
+	points = map[string]func(args ...interface{}){}
+	sizes = map[string]func(v uint64) uint64{}
+	mu.Unlock()
+}
